@@ -277,6 +277,37 @@ func probes() []hist {
 		return upd(append(append([]entry{a}, mid...), b)...)
 	}
 	var ps []hist
+	// chain globals: every mutable key with the boundary values of its declared type (what is accepted must be read
+	// back by every node: readback.go)
+	bounds := map[string][]string{
+		"int":      {"2147483647", "2147483648", "-2147483649", "9223372036854775807", "9223372036854775808", "-1", "x"},
+		"int32":    {"2147483647", "2147483648", "-2147483648", "-2147483649", "9223372036854775807", "-1", "x"},
+		"int64":    {"2147483648", "9223372036854775807", "9223372036854775808", "-9223372036854775808", "-1", "1.5", "x"},
+		"coinI":    {"2147483648", "9223372036854775807", "9223372036854775808", "18446744073709551615", "-1", "x"},
+		"duration": {"2562047h", "2562048h", "9223372036854775807ns", "-5s", "1000000h", "5", "x"},
+		"float":    {"1e308", "1e309", "-1e308", "NaN", "Inf", "5e-324", "x"},
+		"bool":     {"true", "T", "1", "yes", "2", ""},
+	}
+	for _, nm := range names(kGlobals) {
+		sp := specs[kGlobals][nm]
+		vals, ok := bounds[sp.kind]
+		if !sp.mutable || !ok {
+			continue
+		}
+		h := hist{Contract: kGlobals, Probe: "global-boundary-" + nm}
+		for _, v := range vals {
+			h.Ops = append(h.Ops, upd(entry{nm, v}))
+		}
+		ps = append(ps, h)
+		if sp.kind == "float" {
+			// non-finite spellings one by one (each fee key on its own: ConfigImpl.Update hands both to currency.ParseZCN)
+			h2 := hist{Contract: kGlobals, Probe: "global-nonfinite-" + nm}
+			for _, v := range []string{"NaN", "nan", "Inf", "+Inf", "-Inf", "infinity", "1e309", "-1e309"} {
+				h2.Ops = append(h2.Ops, upd(entry{nm, v}))
+			}
+			ps = append(ps, h2)
+		}
+	}
 	// aliases: two distinct request keys that name one setting
 	ps = append(ps, hist{Contract: kStorage, Probe: "alias-storagesc-blank", Ops: []op{
 		join(entry{" max_delegates", "7"}, fill(kStorage, 6), entry{"max_delegates", "9"}), {Kind: "commit", Caller: otherClient}}})
